@@ -28,4 +28,32 @@ PROPS = {
             'protocol version 3; candidate identified by RPCHeader.Addr/ID',
         ],
     ),
+    'C05': dict(
+        props_file='Props/C05.v',
+        components=['c05'],
+        comp_names={5: 'commitment (newCommitment/match/setConfiguration/getCommitIndex via tag-exported wrapper)'},
+        rule='tables: every configuration of n<=3 (quick) / n<=4 (thorough) servers x suffrage in {Voter,Nonvoter,Staging} x match in 0..3 x startIndex in 0..3 '
+             '(n=4/5 sampled), each followed by two setConfiguration calls; plus random op sequences (<=30 ops, <=9 servers, occasionally ill-formed '
+             'duplicate ids). Compared: commit index after every op. Non-trivial = the commit index advanced at least once',
+        assumptions=['ServerID <-> N by the harness naming sN; commitCh notification is not compared'],
+    ),
+    'C07': dict(
+        props_file='Props/C07.v',
+        components=['c07'],
+        comp_names={7: 'nextConfiguration/checkConfiguration/hasVote/inConfiguration/quorumSize'},
+        rule='every configuration of <=2 servers over ids {"",s1,s2,s3} x addresses {"",a1,a2} x 3 suffrages (incl. ill-formed) x 5 commands x id x address x '
+             'prevIndex in {0,idx,idx+1} (quick: sampled 1/3); 3-server configurations over non-empty ids/addresses (sampled); random 1..5-server configurations. '
+             'Compared: checkConfiguration, result configuration or error, hasVote/inConfiguration of 6 ids, quorumSize (real quorumSize on a booted node for a sample). '
+             'Non-trivial = the change was accepted',
+        assumptions=['errors compared as ok/error', 'ServerID/ServerAddress <-> N by harness naming, "" <-> 0'],
+    ),
+    'C11': dict(
+        props_file='Props/C11.v',
+        components=['c11'],
+        comp_names={11: 'compactLogsWithTrailing on a stepper node over a recording MapLogStore'},
+        rule='first index, snapshot index, last index, TrailingLogs each in 0..8 (6561 cases, exhaustive in both tiers). Compared: the DeleteRange issued. '
+             'Non-trivial = a range was deleted',
+        exhaustive=True,
+        assumptions=['FirstIndex of the harness store = least key; indices < 2^62'],
+    ),
 }
